@@ -171,3 +171,473 @@ theorem writeInt_length (v : Int) : 1 ≤ (writeInt v).length ∧ (writeInt v).l
   omega
 
 end Tw.Packer
+
+namespace Tw.Packer
+
+theorem arith0 (acc r m1 : Nat) (hr : r < 16) (hacc : acc < 134217728) (hm1 : m1 * 17179869184 < 2147483648) :
+    (m1 * 128 + r) * 134217728 < 2147483648 ∧
+    (acc + r * 134217728) % 4294967296 + m1 * 17179869184 = acc + (m1 * 128 + r) * 134217728 := by
+  have hm0 : m1 = 0 := by omega
+  subst hm0; clear hm1
+  have e : (acc + r * 134217728) % 4294967296 = acc + r * 134217728 := Nat.mod_eq_of_lt (by omega)
+  rw [e]; constructor <;> omega
+
+theorem arith1 (acc r m1 : Nat) (hr : r < 128) (hacc : acc < 1048576) (hm1 : m1 * 134217728 < 2147483648) :
+    (m1 * 128 + r) * 1048576 < 2147483648 ∧
+    (acc + r * 1048576) % 4294967296 + m1 * 134217728 = acc + (m1 * 128 + r) * 1048576 := by
+  have hm0 : m1 < 16 := by omega
+  clear hm1
+  have e : (acc + r * 1048576) % 4294967296 = acc + r * 1048576 := Nat.mod_eq_of_lt (by omega)
+  rw [e]; constructor <;> omega
+
+theorem arith2 (acc r m1 : Nat) (hr : r < 128) (hacc : acc < 8192) (hm1 : m1 * 1048576 < 2147483648) :
+    (m1 * 128 + r) * 8192 < 2147483648 ∧
+    (acc + r * 8192) % 4294967296 + m1 * 1048576 = acc + (m1 * 128 + r) * 8192 := by
+  have hm0 : m1 < 2048 := by omega
+  clear hm1
+  have e : (acc + r * 8192) % 4294967296 = acc + r * 8192 := Nat.mod_eq_of_lt (by omega)
+  rw [e]; constructor <;> omega
+
+theorem arith3 (acc r m1 : Nat) (hr : r < 128) (hacc : acc < 64) (hm1 : m1 * 8192 < 2147483648) :
+    (m1 * 128 + r) * 64 < 2147483648 ∧
+    (acc + r * 64) % 4294967296 + m1 * 8192 = acc + (m1 * 128 + r) * 64 := by
+  have hm0 : m1 < 262144 := by omega
+  clear hm1
+  have e : (acc + r * 64) % 4294967296 = acc + r * 64 := Nat.mod_eq_of_lt (by omega)
+  rw [e]; constructor <;> omega
+
+theorem arithStep (n : Nat) (hn : n < 4) (acc r m1 : Nat) (hr : r < 128) (hr0 : n = 0 → r < 16)
+    (hacc : acc < 2 ^ (34 - 7 * (n + 1))) (hm1 : m1 * 2 ^ (34 - 7 * n) < 2 ^ 31) :
+    (m1 * 128 + r) * 2 ^ (34 - 7 * (n + 1)) < 2 ^ 31 ∧
+    (acc + r * 2 ^ (6 + 7 * (3 - n))) % 2 ^ 32 + m1 * 2 ^ (34 - 7 * n)
+      = acc + (m1 * 128 + r) * 2 ^ (34 - 7 * (n + 1)) := by
+  have hcases : n = 0 ∨ n = 1 ∨ n = 2 ∨ n = 3 := by omega
+  rcases hcases with rfl | rfl | rfl | rfl
+  · have := hr0 rfl
+    simp only [Nat.reduceAdd, Nat.reduceMul, Nat.reduceSub, Nat.reducePow] at hacc hm1 ⊢
+    exact arith0 acc r m1 this hacc hm1
+  · simp only [Nat.reduceAdd, Nat.reduceMul, Nat.reduceSub, Nat.reducePow] at hacc hm1 ⊢
+    exact arith1 acc r m1 hr hacc hm1
+  · simp only [Nat.reduceAdd, Nat.reduceMul, Nat.reduceSub, Nat.reducePow] at hacc hm1 ⊢
+    exact arith2 acc r m1 hr hacc hm1
+  · simp only [Nat.reduceAdd, Nat.reduceMul, Nat.reduceSub, Nat.reducePow] at hacc hm1 ⊢
+    exact arith3 acc r m1 hr hacc hm1
+
+/-- What `readTail` returns, analysed: consumed bytes `c`, appended warnings `extra`. -/
+def TailInv (n : Nat) : Prop :=
+  ∀ (acc : Nat) (src : UInt8) (len : Nat) (inp : List UInt8) (ws0 : List Warning)
+    (acc' : Nat) (src' : UInt8) (len' : Nat) (rest : List UInt8) (ws' : List Warning),
+    readTail n acc src len inp ws0 = some (acc', src', len', rest, ws') →
+    acc < 2 ^ (34 - 7 * n) →
+    ∃ c extra, inp = c ++ rest ∧ len' = len + c.length ∧ c.length ≤ n ∧ ws' = ws0 ++ extra ∧
+      (c = [] → src' = src ∧ acc' = acc ∧ extra = []) ∧
+      (c.length < n → extra = [] ∧ acc' < 2 ^ (34 - 7 * n + 7 * c.length) ∧ src'.toNat < 128) ∧
+      (extra = [] → (n = 0 → src.toNat < 128) → (c ≠ [] → src'.toNat ≠ 0) →
+        ∃ m, m * 2 ^ (34 - 7 * n) < 2 ^ 31 ∧ (src.toNat < 128 ↔ m = 0) ∧ c = writeTail n m ∧
+          acc' = acc + m * 2 ^ (34 - 7 * n))
+
+theorem tailInv_zero : TailInv 0 := by
+  intro acc src len inp ws0 acc' src' len' rest ws' h _
+  simp only [readTail, Option.some.injEq, Prod.mk.injEq] at h
+  obtain ⟨rfl, rfl, rfl, rfl, rfl⟩ := h
+  refine ⟨[], [], by simp, by simp, by simp, by simp, by simp, by simp, ?_⟩
+  intro _ hs _
+  exact ⟨0, by simp, by simp [hs rfl], by simp [writeTail], by simp⟩
+
+theorem tailInv_succ (n : Nat) (hn : n < 4) (ih : TailInv n) : TailInv (n + 1) := by
+  intro acc src len inp ws0 acc' src' len' rest ws' h hacc
+  unfold readTail at h
+  by_cases hs : src.toNat < 128
+  · simp only [hs, if_true, Option.some.injEq, Prod.mk.injEq] at h
+    obtain ⟨rfl, rfl, rfl, rfl, rfl⟩ := h
+    refine ⟨[], [], by simp, by simp, by simp, by simp, by simp, ?_, ?_⟩
+    · intro _
+      refine ⟨rfl, ?_, hs⟩
+      simpa using hacc
+    · intro _ _ _
+      exact ⟨0, by simp, by simp [hs], by simp [writeTail], by simp⟩
+  · simp only [hs, if_false] at h
+    match inp, h with
+    | b :: rest0, h =>
+      simp only at h
+      have hb256 := UInt8.toNat_lt b
+      have hcases : n = 0 ∨ n = 1 ∨ n = 2 ∨ n = 3 := by omega
+      -- the recursive call's accumulator is in range
+      have hacc1 : (acc + b.toNat % 128 * 2 ^ (6 + 7 * (3 - n))) % 2 ^ 32 < 2 ^ (34 - 7 * n) := by
+        rcases hcases with rfl | rfl | rfl | rfl <;> simp only [Nat.reduceAdd, Nat.reduceMul, Nat.reduceSub, Nat.reducePow] at hacc ⊢ <;> omega
+      obtain ⟨c1, extra1, hinp, hlen, hcl, hws, hnil, hshort, hcanon⟩ := ih _ _ _ _ _ _ _ _ _ _ h hacc1
+      by_cases hpad : 3 - n = 3 ∧ b.toNat / 16 ≠ 0
+      · -- padding warning emitted
+        rw [if_pos hpad] at hws
+        refine ⟨b :: c1, Warning.nonZeroIntPadding :: extra1, by simp [hinp], by simp [hlen]; omega,
+          by simp; omega, by simp [hws], by simp, ?_, ?_⟩
+        · intro hl
+          simp only [List.length_cons] at hl
+          have : n = 0 := by omega
+          omega
+        · intro he; simp at he
+      · rw [if_neg hpad] at hws
+        refine ⟨b :: c1, extra1, by simp [hinp], by simp [hlen]; omega, by simp; omega, hws, by simp, ?_, ?_⟩
+        · intro hl
+          simp only [List.length_cons] at hl
+          obtain ⟨he, hb, hs'⟩ := hshort (by omega)
+          refine ⟨he, ?_, hs'⟩
+          have : 34 - 7 * (n + 1) + 7 * (c1.length + 1) = 34 - 7 * n + 7 * c1.length := by omega
+          simp only [List.length_cons]
+          rw [this]; exact hb
+        · intro he _ hlast
+          have hb16' : n = 0 → b.toNat < 16 := by
+            intro h0; subst h0
+            have : ¬ b.toNat / 16 ≠ 0 := fun hh => hpad ⟨rfl, hh⟩
+            omega
+          have hb16 : n = 0 → b.toNat < 128 := fun h0 => by have := hb16' h0; omega
+          clear hpad
+          obtain ⟨m1, hm1, hiff, hc1, hacc'⟩ := hcanon he hb16 (by
+            intro hc1ne; exact hlast (by simp))
+          have hsrc'b : c1 = [] → src' = b := fun hc => (hnil hc).1
+          have hbne : m1 = 0 → b.toNat % 128 ≠ 0 := by
+            intro hm0
+            have hb128 : b.toNat < 128 := hiff.mpr hm0
+            have : c1 = [] := by rw [hc1, hm0]; cases n <;> simp [writeTail]
+            have := hsrc'b this
+            have h0 := hlast (by simp)
+            rw [this] at h0
+            omega
+          have harith := arithStep n hn acc (b.toNat % 128) m1 (Nat.mod_lt _ (by decide))
+            (fun h0 => by have := hb16' h0; omega) hacc hm1
+          refine ⟨m1 * 128 + b.toNat % 128, ?_, ?_, ?_, ?_⟩
+          · exact harith.1
+          · constructor
+            · intro h; exact absurd h hs
+            · intro hm; exfalso
+              by_cases hm0 : m1 = 0
+              · exact hbne hm0 (by omega)
+              · omega
+          · have hmne : m1 * 128 + b.toNat % 128 ≠ 0 := by
+              by_cases hm0 : m1 = 0
+              · have := hbne hm0; omega
+              · omega
+            have hdiv : (m1 * 128 + b.toNat % 128) / 128 = m1 := by omega
+            have hmod : (m1 * 128 + b.toNat % 128) % 128 = b.toNat % 128 := by omega
+            have hbyte : (if m1 ≠ 0 then 128 else 0) + b.toNat % 128 = b.toNat := by
+              by_cases hm0 : m1 = 0
+              · have := hiff.mpr hm0; simp [hm0]; omega
+              · have : ¬ b.toNat < 128 := fun hh => hm0 (hiff.mp hh)
+                simp [hm0]; omega
+            simp only [writeTail, hmne, if_false, hdiv, hmod, hbyte, UInt8.ofNat_toNat, hc1]
+          · rw [hacc']; exact harith.2
+
+theorem tailInv (n : Nat) (hn : n ≤ 4) : TailInv n := by
+  induction n with
+  | zero => exact tailInv_zero
+  | succ n ih => exact tailInv_succ n (by omega) (ih (by omega))
+
+end Tw.Packer
+
+namespace Tw.Packer
+
+theorem toI32_range (r : Nat) : inI32 (toI32 r) := by
+  unfold toI32 inI32
+  have : r % 2 ^ 32 < 2 ^ 32 := Nat.mod_lt _ (by decide)
+  split <;> omega
+
+/-- undoing the sign fold -/
+theorem fold_toI32 (u sign : Nat) (hu : u < 2 ^ 31) (hs : sign ≤ 1) :
+    foldSign (toI32 (if sign = 1 then 2 ^ 32 - 1 - u else u)) = u ∧
+    (toI32 (if sign = 1 then 2 ^ 32 - 1 - u else u) < 0 ↔ sign = 1) := by
+  unfold foldSign toI32
+  by_cases h1 : sign = 1
+  · simp only [h1, if_true]
+    have e : ((2:Nat) ^ 32 - 1 - u) % 2 ^ 32 = 2 ^ 32 - 1 - u := Nat.mod_eq_of_lt (by omega)
+    rw [e]
+    have : ¬ ((2:Nat) ^ 32 - 1 - u < 2 ^ 31) := by omega
+    simp only [this, if_false]
+    constructor
+    · split <;> omega
+    · constructor
+      · intro _; trivial
+      · intro _; omega
+  · simp only [h1, if_false]
+    have e : u % 2 ^ 32 = u := Nat.mod_eq_of_lt (by omega)
+    rw [e]
+    simp only [hu, if_true]
+    constructor
+    · split <;> omega
+    · constructor
+      · intro h; omega
+      · intro h; exact absurd h (by simpa using h1)
+
+theorem writeTail_length_lt (n k m : Nat) (h : m < 128 ^ k) : (writeTail n m).length ≤ k := by
+  induction n generalizing k m with
+  | zero => simp [writeTail]
+  | succ n ih =>
+    unfold writeTail
+    split
+    · simp
+    · rename_i hm
+      cases k with
+      | zero => simp at h; omega
+      | succ k =>
+        simp only [List.length_cons]
+        have : m / 128 < 128 ^ k := by
+          rw [Nat.pow_succ] at h
+          exact Nat.div_lt_of_lt_mul (by rw [Nat.mul_comm]; exact h)
+        have := ih k (m / 128) this
+        omega
+
+/-- `readTail` fails exactly when the extend bit asks for more bytes than there are. -/
+theorem readTail_none (n : Nat) :
+    ∀ (acc : Nat) (src : UInt8) (len : Nat) (inp : List UInt8) (ws : List Warning),
+      readTail n acc src len inp ws = none ↔
+        (128 ≤ src.toNat ∧ inp.length < n ∧ ∀ b ∈ inp, 128 ≤ b.toNat) := by
+  induction n with
+  | zero => intro acc src len inp ws; simp [readTail]
+  | succ n ih =>
+    intro acc src len inp ws
+    unfold readTail
+    by_cases hs : src.toNat < 128
+    · simp only [hs, if_true]
+      constructor
+      · intro h; cases h
+      · rintro ⟨h, _⟩; omega
+    · simp only [hs, if_false]
+      cases inp with
+      | nil => simp; omega
+      | cons b rest =>
+        simp only [ih, List.length_cons, List.mem_cons, forall_eq_or_imp]
+        constructor
+        · rintro ⟨h1, h2, h3⟩; exact ⟨by omega, by omega, h1, h3⟩
+        · rintro ⟨_, h2, h1, h3⟩; exact ⟨h1, by omega, h3⟩
+
+end Tw.Packer
+
+namespace Tw.Packer
+
+theorem first_byte_recompose (b0 : UInt8) (m : Nat) (hiff : b0.toNat < 128 ↔ m = 0) :
+    UInt8.ofNat ((if m ≠ 0 then 128 else 0) + (b0.toNat / 64) % 2 * 64 + b0.toNat % 64) = b0 := by
+  have hb := UInt8.toNat_lt b0
+  have : (if m ≠ 0 then 128 else 0) + (b0.toNat / 64) % 2 * 64 + b0.toNat % 64 = b0.toNat := by
+    by_cases hm : m = 0
+    · have := hiff.mpr hm; simp [hm]; omega
+    · have : ¬ b0.toNat < 128 := fun h => hm (hiff.mp h)
+      simp [hm]; omega
+  rw [this, UInt8.ofNat_toNat]
+
+/-- Full analysis of a successful `readInt`. -/
+theorem readInt_inv (bs : List UInt8) (v : Int) (rest : List UInt8) (ws : List Warning)
+    (h : readInt bs = some (v, rest, ws)) :
+    ∃ c, bs = c ++ rest ∧ 1 ≤ c.length ∧ c.length ≤ 5 ∧ inI32 v ∧
+      (ws = [] ↔ c = writeInt v) ∧ (writeInt v).length ≤ c.length := by
+  unfold readInt at h
+  match bs, h with
+  | b0 :: inp, h =>
+    simp only at h
+    match hrt : readTail 4 (b0.toNat % 64) b0 1 inp [], h with
+    | some (acc', src', len', rest', ws1), h =>
+      simp only [Option.some.injEq, Prod.mk.injEq] at h
+      obtain ⟨hv, hrest, hws⟩ := h
+      subst hrest
+      have hacc0 : b0.toNat % 64 < 2 ^ (34 - 7 * 4) := by
+        simp only [Nat.reduceMul, Nat.reduceSub, Nat.reducePow]; omega
+      obtain ⟨c1, extra, hinp, hlen, hcl, hws1, hnil, hshort, hcanon⟩ :=
+        tailInv 4 (by omega) _ _ _ _ _ _ _ _ _ _ hrt hacc0
+      simp only [List.nil_append] at hws1
+      have hvr : inI32 v := by rw [← hv]; exact toI32_range _
+      have hsign : (b0.toNat / 64) % 2 ≤ 1 := by omega
+      -- direction: canonical bytes give no warnings (from the round trip)
+      have hback : b0 :: c1 = writeInt v → ws = [] := by
+        intro hc
+        have hrt2 := readInt_writeInt v hvr rest'
+        rw [← hc] at hrt2
+        have : readInt (b0 :: c1 ++ rest') = some (v, rest', ws) := by
+          unfold readInt
+          simp only [List.cons_append, ← hinp, hrt]
+          simp [hv, hws]
+        rw [this] at hrt2
+        simpa using hrt2
+      -- direction: no warnings force the canonical bytes
+      have hfwd : ws = [] → b0 :: c1 = writeInt v := by
+        intro hw
+        rw [hw] at hws
+        have hex : extra = [] := by
+          rw [hws1] at hws
+          split at hws
+          · simp at hws
+          · exact hws
+        have hnover : ¬ (len' > 1 ∧ src'.toNat = 0) := by
+          intro hh; rw [if_pos hh] at hws; simp at hws
+        obtain ⟨m, hm, hiff, hc1, hacc'⟩ := hcanon hex (by omega) (by
+          intro hne hz
+          apply hnover
+          refine ⟨?_, hz⟩
+          have : 0 < c1.length := List.length_pos_iff.mpr hne
+          omega)
+        simp only [Nat.reduceMul, Nat.reduceSub, Nat.reducePow] at hm hacc'
+        have hu : acc' < 2 ^ 31 := by
+          have : m < 33554432 := by omega
+          omega
+        obtain ⟨hf, hneg⟩ := fold_toI32 acc' ((b0.toNat / 64) % 2) hu hsign
+        rw [hv] at hf hneg
+        unfold writeInt
+        have hdiv : acc' / 64 = m := by omega
+        have hmod : acc' % 64 = b0.toNat % 64 := by omega
+        have hsg : (if v < 0 then 1 else 0 : Nat) = (b0.toNat / 64) % 2 := by
+          by_cases h1 : (b0.toNat / 64) % 2 = 1
+          · simp [hneg.mpr h1, h1]
+          · have : ¬ v < 0 := fun hh => h1 (hneg.mp hh)
+            simp [this]; omega
+        simp only [hf, hdiv, hmod, hsg]
+        rw [first_byte_recompose b0 m hiff, hc1]
+      refine ⟨b0 :: c1, by simp [hinp], by simp, by simp; omega, hvr, ⟨hfwd, hback⟩, ?_⟩
+      -- minimality
+      by_cases h5 : c1.length = 4
+      · have := (writeInt_length v).2; simp [h5]; omega
+      · obtain ⟨hex, hb, hs'⟩ := hshort (by omega)
+        simp only [Nat.reduceMul, Nat.reduceSub] at hb
+        have hu : acc' < 2 ^ 31 := by
+          have : (2:Nat) ^ (6 + 7 * c1.length) ≤ 2 ^ 27 := Nat.pow_le_pow_right (by decide) (by omega)
+          omega
+        obtain ⟨hf, _⟩ := fold_toI32 acc' ((b0.toNat / 64) % 2) hu hsign
+        rw [hv] at hf
+        unfold writeInt
+        simp only [hf, List.length_cons]
+        have : acc' / 64 < 128 ^ c1.length := by
+          have e : (2:Nat) ^ (6 + 7 * c1.length) = 64 * 128 ^ c1.length := by
+            rw [Nat.pow_add, Nat.pow_mul]
+          rw [e] at hb
+          exact Nat.div_lt_of_lt_mul hb
+        have := writeTail_length_lt 4 c1.length (acc' / 64) this
+        omega
+
+theorem readInt_none_iff (bs : List UInt8) :
+    readInt bs = none ↔ (bs.length < 5 ∧ ∀ b ∈ bs, 128 ≤ b.toNat) := by
+  cases bs with
+  | nil => simp [readInt]
+  | cons b0 inp =>
+    unfold readInt
+    simp only
+    cases hrt : readTail 4 (b0.toNat % 64) b0 1 inp [] with
+    | none =>
+      have := (readTail_none 4 _ _ _ _ _).mp hrt
+      simp only [List.length_cons, List.mem_cons, forall_eq_or_imp, true_iff]
+      exact ⟨by omega, this.1, this.2.2⟩
+    | some r =>
+      obtain ⟨acc', src', len', rest', ws1⟩ := r
+      simp only [List.length_cons, List.mem_cons, forall_eq_or_imp, false_iff, reduceCtorEq]
+      rintro ⟨h1, h2, h3⟩
+      have : readTail 4 (b0.toNat % 64) b0 1 inp [] = none :=
+        (readTail_none 4 _ _ _ _ _).mpr ⟨h2, by omega, h3⟩
+      rw [this] at hrt; cases hrt
+
+end Tw.Packer
+
+namespace Tw.Packer
+
+def TailVal (n : Nat) : Prop :=
+  ∀ (acc : Nat) (src : UInt8) (len : Nat) (inp : List UInt8) (ws0 : List Warning)
+    (acc' : Nat) (src' : UInt8) (len' : Nat) (rest : List UInt8) (ws' : List Warning),
+    readTail n acc src len inp ws0 = some (acc', src', len', rest, ws') →
+    acc < 2 ^ (34 - 7 * n) →
+    ∃ c extra, inp = c ++ rest ∧ c.length ≤ n ∧ ws' = ws0 ++ extra ∧
+      (∀ w ∈ extra, w = Warning.nonZeroIntPadding) ∧
+      (extra = [] → tailMag c * 2 ^ (34 - 7 * n) < 2 ^ 31 ∧ acc' = acc + tailMag c * 2 ^ (34 - 7 * n))
+
+theorem tailVal_zero : TailVal 0 := by
+  intro acc src len inp ws0 acc' src' len' rest ws' h _
+  simp only [readTail, Option.some.injEq, Prod.mk.injEq] at h
+  obtain ⟨rfl, rfl, rfl, rfl, rfl⟩ := h
+  exact ⟨[], [], by simp, by simp, by simp, by simp, by simp [tailMag]⟩
+
+theorem tailVal_succ (n : Nat) (hn : n < 4) (ih : TailVal n) : TailVal (n + 1) := by
+  intro acc src len inp ws0 acc' src' len' rest ws' h hacc
+  unfold readTail at h
+  by_cases hs : src.toNat < 128
+  · simp only [hs, if_true, Option.some.injEq, Prod.mk.injEq] at h
+    obtain ⟨rfl, rfl, rfl, rfl, rfl⟩ := h
+    exact ⟨[], [], by simp, by simp, by simp, by simp, by simp [tailMag]⟩
+  · simp only [hs, if_false] at h
+    match inp, h with
+    | b :: rest0, h =>
+      simp only at h
+      have hb256 := UInt8.toNat_lt b
+      have hcases : n = 0 ∨ n = 1 ∨ n = 2 ∨ n = 3 := by omega
+      have hacc1 : (acc + b.toNat % 128 * 2 ^ (6 + 7 * (3 - n))) % 2 ^ 32 < 2 ^ (34 - 7 * n) := by
+        rcases hcases with rfl | rfl | rfl | rfl <;>
+          simp only [Nat.reduceAdd, Nat.reduceMul, Nat.reduceSub, Nat.reducePow] at hacc ⊢ <;> omega
+      obtain ⟨c1, extra1, hinp, hcl, hws, hall, hval⟩ := ih _ _ _ _ _ _ _ _ _ _ h hacc1
+      by_cases hpad : 3 - n = 3 ∧ b.toNat / 16 ≠ 0
+      · rw [if_pos hpad] at hws
+        refine ⟨b :: c1, Warning.nonZeroIntPadding :: extra1, by simp [hinp], by simp; omega,
+          by simp [hws], ?_, ?_⟩
+        · intro w hw
+          rcases List.mem_cons.mp hw with rfl | hw
+          · rfl
+          · exact hall w hw
+        · intro he; simp at he
+      · rw [if_neg hpad] at hws
+        refine ⟨b :: c1, extra1, by simp [hinp], by simp; omega, hws, hall, ?_⟩
+        intro he
+        obtain ⟨hm1, hacc'⟩ := hval he
+        have hb16' : n = 0 → b.toNat % 128 < 16 := by
+          intro h0; subst h0
+          have : ¬ b.toNat / 16 ≠ 0 := fun hh => hpad ⟨rfl, hh⟩
+          omega
+        have harith := arithStep n hn acc (b.toNat % 128) (tailMag c1) (Nat.mod_lt _ (by decide))
+          hb16' hacc hm1
+        have e : tailMag (b :: c1) = tailMag c1 * 128 + b.toNat % 128 := by
+          simp only [tailMag]; omega
+        rw [e, hacc']
+        exact harith
+
+theorem tailVal (n : Nat) (hn : n ≤ 4) : TailVal n := by
+  induction n with
+  | zero => exact tailVal_zero
+  | succ n ih => exact tailVal_succ n (by omega) (ih (by omega))
+
+/-- For zero padding bits `readInt` returns the value the format documentation prescribes. -/
+theorem readInt_doc (bs : List UInt8) (v : Int) (rest : List UInt8) (ws : List Warning)
+    (h : readInt bs = some (v, rest, ws)) (hpad : Warning.nonZeroIntPadding ∉ ws) :
+    ∃ c, bs = c ++ rest ∧ v = docValue c := by
+  unfold readInt at h
+  match bs, h with
+  | b0 :: inp, h =>
+    simp only at h
+    match hrt : readTail 4 (b0.toNat % 64) b0 1 inp [], h with
+    | some (acc', src', len', rest', ws1), h =>
+      simp only [Option.some.injEq, Prod.mk.injEq] at h
+      obtain ⟨hv, hrest, hws⟩ := h
+      subst hrest
+      have hacc0 : b0.toNat % 64 < 2 ^ (34 - 7 * 4) := by
+        simp only [Nat.reduceMul, Nat.reduceSub, Nat.reducePow]; omega
+      obtain ⟨c1, extra, hinp, hcl, hws1, hall, hval⟩ :=
+        tailVal 4 (by omega) _ _ _ _ _ _ _ _ _ _ hrt hacc0
+      simp only [List.nil_append] at hws1
+      have hex : extra = [] := by
+        cases extra with
+        | nil => rfl
+        | cons w tl =>
+          exfalso; apply hpad
+          have hw : w = Warning.nonZeroIntPadding := hall w (by simp)
+          rw [← hws, hws1, hw]
+          split <;> simp
+      obtain ⟨hm, hacc'⟩ := hval hex
+      simp only [Nat.reduceMul, Nat.reduceSub, Nat.reducePow] at hm hacc'
+      refine ⟨b0 :: c1, by simp [hinp], ?_⟩
+      have hmag : docMag (b0 :: c1) = acc' := by simp only [docMag]; omega
+      have hu : acc' < 2 ^ 31 := by
+        have : tailMag c1 < 33554432 := by omega
+        omega
+      rw [← hv]
+      unfold docValue toI32
+      simp only [hmag]
+      by_cases h1 : (b0.toNat / 64) % 2 = 1
+      · simp only [h1, if_true]
+        have e : ((2:Nat) ^ 32 - 1 - acc') % 2 ^ 32 = 2 ^ 32 - 1 - acc' := Nat.mod_eq_of_lt (by omega)
+        rw [e]
+        split <;> omega
+      · simp only [h1, if_false]
+        have e : acc' % 2 ^ 32 = acc' := Nat.mod_eq_of_lt (by omega)
+        rw [e]
+        split <;> omega
+
+end Tw.Packer
